@@ -19,6 +19,7 @@ import (
 
 	"github.com/fsnotify/fsnotify"
 	"github.com/vimeo/dials"
+	"github.com/vimeo/dials/internal/verifhook"
 )
 
 // NewSource converts path to an absolute path and returns a source for that file.
@@ -320,6 +321,9 @@ MAINLOOP:
 		}
 
 		newVal, parseErr := ws.Value(ctx, t)
+		if verifhook.Enabled {
+			verifhook.Point("file.read", ctx, ws.path, parseErr)
+		}
 
 		configExists := !os.IsNotExist(parseErr)
 		if !configExists {
